@@ -147,10 +147,13 @@ def parse_segments(text, version=None, encoding_chars=None, validation_level=Non
     for s in text.split(segment_sep):
         if len(s) > 0:
             segment_name = s[:3]
+            # the search below moves through the groups: where it started is needed if the segment is not found
+            search_start = (current_parent, list(parents_refs))
             for x in xrange(len(parents_refs)):
                 if not find_groups:
                     segment = parse_segment(s.strip(), version, encoding_chars, validation_level)
                     segments.append(segment)
+                    break
                 else:
                     ref, parents_refs = _get_segment_reference(segment_name, parents_refs)
                     if ref is None:
@@ -192,6 +195,15 @@ def parse_segments(text, version=None, encoding_chars=None, validation_level=Non
                         else:
                             current_parent.add(segment)
                         break
+            else:
+                # the segment doesn't belong to the message structure (e.g. a Z segment): it must not be lost.
+                # It is added where the search started, i.e. to the group of the previous segment
+                current_parent, parents_refs = search_start
+                segment = parse_segment(s.strip(), version, encoding_chars, validation_level)
+                if current_parent is None:
+                    segments.append(segment)
+                else:
+                    current_parent.add(segment)
     return segments
 
 
